@@ -251,6 +251,30 @@ extern "C" void h_int() {
     vf_witness();
 }
 
+// ---- long integer part followed by a fraction or an exponent: "<ND digits>[.eE]<digit>" must be consumed entirely and read as Real
+extern "C" void h_int_tail() {
+    const unsigned sl = (SIGN != 0) ? 1U : 0U, n = sl + ND + 2U;
+    C *b = vf_buf<C>(n);
+    if (SIGN == 1) vf_assume(b[0] == C('-'));
+    if (SIGN == 2) vf_assume(b[0] == C('+'));
+    unsigned i = 0;
+    while (i < ND) {
+        const C c = b[sl + i];
+        vf_assume(is_digit(c) && (i != 0U || c != C('0')));
+        if (i + 1U < sizeof(pfx)) vf_assume(c == C(pfx[i]));
+        ++i;
+    }
+    const C t0 = b[sl + ND], t1 = b[sl + ND + 1U];
+    vf_assume(t0 == C('.') || t0 == C('e') || t0 == C('E'));
+    vf_assume(is_digit(t1));
+    QNumber64 num;
+    SizeT off = 0;
+    const QNumberType kind = Digit::StringToNumber(num, (const C *)b, off, SizeT(n));
+    vf_assert(off == n, 1);                                  // the whole numeral is consumed, whichever marker follows the digits
+    vf_assert(kind == QNumberType::Real, 2);                 // a fraction or an exponent makes it a real
+    vf_witness();
+}
+
 // ---- long written exponents: "1e[-]ddd...d" with NE exponent digits (leading zeros allowed) ----------------------------
 #ifndef NE
 #define NE 10
